@@ -144,7 +144,13 @@ func targets(tier string) []target {
 	mb.lite, mb.margin, mb.ratios = true, true, []int{-1, 3, 4, 5}
 	mc := ckksTarget(circ.CKKSSpec{LogN: 8, NQ: 4, Q0Bits: 60, QBits: 45, NP: 1, PBits: 61, LogScale: 45}, 7)
 	mc.lite, mc.margin, mc.ratios = true, true, []int{-1, 3, 4, 5}
-	ts = append(ts, mb, mc)
+	// the same with the 60-bit prime at level 1 (a level whose prime is larger than every prime below it)
+	mb1 := bgvTarget(circ.BGVSpec{LogN: 8, NQ: 4, Q0Bits: 60, QBits: 45, NP: 1, PBits: 61, T: 65537, BigAt: 1})
+	mb1.lite, mb1.margin, mb1.ratios = true, true, []int{-1, 4, 5}
+	mc1 := ckksTarget(circ.CKKSSpec{LogN: 8, NQ: 4, Q0Bits: 60, QBits: 45, NP: 1, PBits: 61, LogScale: 45, BigAt: 1}, 7)
+	mc1.lite, mc1.margin, mc1.ratios = true, true, []int{-1, 4, 5}
+	// first in the list: few, expensive leaves that should run before an internal deadline can strike on a loaded machine
+	ts = append([]target{mb, mc, mb1, mc1}, ts...)
 	if tier == "thorough" {
 		// n = 32: structured sets only
 		b6 := bgvTarget(circ.BGVSpec{LogN: 6, NQ: 4, QBits: 45, NP: 2, PBits: 50, T: 65537})
